@@ -524,7 +524,11 @@ func runC04(r *rep.R) {
 			}
 		}
 	}
-	r.Bound("deviations", 1)
+	if thorough(r) {
+		r.Bound("deviations", "1; 2 for Get Device ID and Get Power Reading")
+	} else {
+		r.Bound("deviations", 1)
+	}
 	r.Assume("a confidentiality pad of length 16 with correct pad bytes is tolerated by the library by documented design (OpenSSL-style BMCs) and is not in the catalogue of invalid pads")
 	r.Assume("flips of RMCP header bits that the IPMI layers do not interpret may leave the value unchanged; the property only forbids a changed value")
 }
